@@ -103,6 +103,8 @@ def confirm(ctx, module, cid, want_class):
     os.makedirs(rd, exist_ok=True)
     rp = os.path.join(rd, "%s-%d.ndjson" % (ctx.tier, cid))
     open(rp, "w").write(session_prefix(ctx, cid, line))
+    if os.environ.get("PVH_CAT") and json.loads(line).get("ev") == "hist":
+        shutil.copy(os.environ["PVH_CAT"], rp + ".cat.json")      # histories refer to catalogue items by number: the replay carries its catalogue
     for attempt in range(3):
         pvh = getattr(ctx, "racebin", None) if cid >= 7000000 else None      # executions observed by the race detector are confirmed by it
         _, verdicts, _ = judge_file(ctx, module, rp, "confirm%d_%d" % (cid, attempt), budget="300s" if pvh else "30s", workers=1, pvh=pvh)
@@ -159,18 +161,39 @@ def finish(ctx, module, verdicts, traces, judge_stats, rule, assumptions, extra=
     return 1 if confirmed else 0
 
 
+EVMOD = {"codec": "TraceCodec", "evolve": "TraceDecode", "hist": "TraceSystem", "hostile": "TraceHostile", "prim": "TracePrim",
+         "typedef": "TraceTypes", "jsonout": "TraceJSONOut", "tag": "TraceTag", "sched": "TraceSched", "stress": "TraceSched"}
+# which verdicts of the judging module count for the property being replayed (several checks judge their cases through other properties' oracles)
+COUNTS_AS = {"C16": {"C01", "C02", "C05", "C13", "C03"}, "C17": {"C06", "C10", "C11"}, "C19": {"C06", "C10", "C11"}, "C10": {"C10", "C01"}}
+
+
 def replay(ctx, path):
+    """Re-executes a replay file (the last line is the case, lines before it its session history) and judges it again."""
     ctx.build()
-    module = MODULES[ctx.prop]
+    lines = [l for l in open(path) if l.strip()]
+    if not lines:
+        raise Broken("empty replay file")
+    last = json.loads(lines[-1])
+    module = EVMOD.get(last.get("ev"), MODULES[ctx.prop])
     ctx.case_files = [path]
+    if os.path.exists(path + ".cat.json"):
+        cat = json.load(open(path + ".cat.json"))
+        os.environ["PVH_CAT"] = os.path.abspath(path + ".cat.json")
+        ctx.judge_kw = dict(extra_consts='  CatFile = "%s"\n  Cat <- CatLit\n  Bufs = {"b1", "b2"}\n  MaxSteps = 100\n  GenIdx <- AllIdx\n' % os.environ["PVH_CAT"],
+                            defs="CatLit == " + vlib.tla_literal(cat))
+        ctx.judge_kw_module = "TraceSystem"
+    elif module == "TraceSystem":
+        raise Broken("a history replay needs its catalogue next to it (<replay>.cat.json)")
+    pvh = getattr(ctx, "racebin", None)
     trace, verdicts, st = judge_file(ctx, module, path, "replay", budget="30s", workers=1)
-    if ctx.prop == "C07":
+    if module == "TraceSched":
         verdicts += judge_file(ctx, "TraceBuild", path, "replayb", budget="30s", workers=1)[1]
         verdicts += judge_file(ctx, "TraceIntern", path, "replayi", budget="30s", workers=1)[1]
+    counts = COUNTS_AS.get(ctx.prop, {ctx.prop})
     rc = 0
     for (i, p, r) in verdicts:
         print("verdict case=%d property=%s %s" % (i, p, r))
-        if p == ctx.prop and not r.startswith("known:"):
+        if i == last.get("id") and p in counts and not r.startswith("known:"):
             print("VIOLATION property=%s replay=%s reason=%s case=%d" % (ctx.prop, path, r, i))
             rc = 1
     if not verdicts:
@@ -419,12 +442,18 @@ def system_family(ctx, catname="MCCat", quick_idx="QuickIdx", relabel=None, extr
     if cat is None:
         raise Broken("no catalogue emitted by MCSystem")
     nfixed = len(cat)
+    # random catalogue items (types without maps, zero value + random value): histories over arbitrary types, not only the hand-picked ones
     if catname == "MCCat":
-        # random catalogue items (types without maps, zero value + random value): histories over arbitrary types, not only the hand-picked ones
         pr = fam_codec.gen_random(ctx.pvh, ctx.work, 14 if ctx.quick else 80, ctx.seed + 3, cfg="default", kind="catitem", tag="catitems")
-        for line in open(pr):
-            if len(line) < 6000:
-                cat.append(json.loads(line))
+        cat += [json.loads(l) for l in open(pr) if len(l) < 6000]
+    elif catname == "MCCat19":        # ... with at least one interned field
+        pr = fam_codec.gen_random(ctx.pvh, ctx.work, 150 if ctx.quick else 800, ctx.seed + 3, cfg="default", kind="catitem", tag="catitems")
+        more = [json.loads(l) for l in open(pr) if len(l) < 6000 and '"opt":"intern"' in l.replace(" ", "")]
+        cat += more[:8 if ctx.quick else 40]
+    elif catname == "MCCat17":        # ... used through differently configured instances
+        for j, cn in enumerate(("default", "pt", "mk")):
+            pr = fam_codec.gen_random(ctx.pvh, ctx.work, 4 if ctx.quick else 20, ctx.seed + 3, cfg=cn, kind="catitem", tag="catitems%d" % j)
+            cat += [json.loads(l) for l in open(pr) if len(l) < 6000]
     catp = os.path.join(ctx.work, "cat.json")
     json.dump(cat, open(catp, "w"))
     os.environ["PVH_CAT"] = catp
